@@ -125,6 +125,45 @@ theorem applied_separation (p : Params) (segs : List Seg) (sol : Sol) (h : AllHo
   have cb := close i b hi
   linarith [ca.1, ca.2, cb.1, cb.2]
 
+-- non-vacuity (joint) of `region_separation`, `region_limits`, `applied_in_limits`, `applied_separation`:
+-- ALL their hypotheses hold together on the two-segment region above, and the theorems instantiate on it
+example :
+    let p : Params := ⟨10, true, fun _ _ => false, fun _ _ => false, 1/10000⟩
+    let a : Seg := ⟨5, some 0, some 30, false, 1, 0, 100⟩
+    let b : Seg := ⟨5, some 0, some 30, false, 2, 50, 150⟩
+    let sol : Sol := ⟨fun i => if i = 0 then 0 else 10, fun _ => 0, fun _ => 30⟩
+    AllHold p [a, b] sol ∧ Satisfied p [a, b] sol ∧ 0 ≤ p.tol ∧
+    (∀ (i : Nat) (s : Seg), [a, b][i]? = some s → ∀ l u, s.minLim = some l → s.maxLim = some u → l ≤ u) ∧
+    overlaps b a = true ∧ (b.fixed = false ∨ a.fixed = false) ∧ FullGap p a b ∧
+    sol.x 0 + p.sepDist ≤ sol.x 1 ∧
+    (∀ l, b.minLim = some l → l ≤ finalPos true b (sol.x 1)) ∧
+    finalPos true a (sol.x 0) + (p.sepDist - 2 * p.tol) ≤ finalPos true b (sol.x 1) := by
+  intro p a b sol
+  have hA : AllHold p [a, b] sol := by
+    intro c hc
+    simp [p, a, b, genCons, genFrom, consFor, overlaps, leOpt, gapFor] at hc
+    rcases hc with rfl | rfl | rfl | ⟨_, rfl⟩ | rfl <;> (simp [sol, Cons.holds]; try norm_num)
+  have hS : Satisfied p [a, b] sol := by
+    intro i s hi
+    match i, hi with
+    | 0, hi => simp at hi; subst hi; simp [a, sol, p, AdaptaVerif.Model.Nudge.absR]
+    | 1, hi => simp at hi; subst hi; simp [b, sol, p, AdaptaVerif.Model.Nudge.absR]
+    | (n + 2), hi => simp at hi
+  have ht : 0 ≤ p.tol := by simp [p]
+  have hl : ∀ (i : Nat) (s : Seg), [a, b][i]? = some s → ∀ l u, s.minLim = some l → s.maxLim = some u → l ≤ u := by
+    intro i s hi l u h1 h2
+    match i, hi with
+    | 0, hi => simp at hi; subst hi; simp [a] at h1 h2; subst h1 h2; norm_num
+    | 1, hi => simp at hi; subst hi; simp [b] at h1 h2; subst h1 h2; norm_num
+    | (n + 2), hi => simp at hi
+  have hov : overlaps b a = true := by decide
+  have hfx : b.fixed = false ∨ a.fixed = false := Or.inl rfl
+  have hfg : FullGap p a b := ⟨by decide, by simp [p]⟩
+  exact ⟨hA, hS, ht, hl, hov, hfx, hfg,
+    region_separation p [a, b] sol hA 0 1 a b rfl rfl (by decide) hov hfx hfg,
+    (applied_in_limits p [a, b] sol hA hS ht 1 b rfl rfl (hl 1 b rfl)).1,
+    applied_separation p [a, b] sol hA hS ht hl 0 1 a b rfl rfl (by decide) hov hfx hfg⟩
+
 /-- (e) the separation distance tried after k ≤ 9 reductions (`sepDist -= baseSepDist/10`) is at
     least a tenth of the ideal nudging distance, hence positive (exact arithmetic; the C++ loop
     stops when `sepDist ≤ 0.0001`, i.e. after the 10th reduction) -/
